@@ -92,6 +92,15 @@ struct C16 : Prop {
 			}
 		}
 		se.set("start", st); se.set("phases", phs); se.set("stop", true);
+		// accessory notifications keep arriving around the last flush of the shutdown (the receiver answers each with a query of its own, which may
+		// be left in the send buffer when the library has stopped: the next session must not start with it)
+		const cfg::Board *stop_notify_board = nullptr; int stop_notify_num = 0;
+		if (!for_compare && r.chance(300)) for (auto &b : w.boards) if (b.present && (!b.points_board.empty() || !b.signals_board.empty())) { stop_notify_board = &b; stop_notify_num = !b.points_board.empty() ? b.points_board[0].number : b.signals_board[0].number; }
+		if ((kind == "normal" || kind == "serial_ok") && flush_ms == 0 && stop_notify_board) {
+			J sev = J::arr();
+			for (int k = 0; k < 10; k++) { J e = J::obj(); e.set("at_us", 595000 + k * 5000); e.set("node", pc::jaddr(stop_notify_board->addr)); e.set("type", (int) MSG_ACCESSORY_NOTIFY); e.set("data", pc::jarr({stop_notify_num, 0, 4, 0, 0})); sev.push(e); }
+			se.set("stop_bus", sev);
+		}
 		if (!for_compare) { if (r.chance(250)) se.set("stop_again", true); if (r.chance(250) && (kind == "normal" || kind == "debug")) { se.set("start_again", true); se.set("start_again_variant", (int) r.range(1, 5)); } }
 		return se;
 	}
